@@ -263,6 +263,21 @@ fn c08_positions(tier: Tier) -> Vec<Pos> {
             i += stride;
         }
     }
+    // promotion races for both colours: a pawn one step from promotion with a piece each side
+    // (PAWN7 and its flips; five men, so the plain reference is affordable at every depth)
+    let p7 = Pawn7;
+    let want = if tier == Tier::Quick { 5_000 } else { 150_000 };
+    let stride7 = (p7.len() / want) | 1;
+    let mut i = 0;
+    while i < p7.len() {
+        if let Some(p) = p7.decode(i) {
+            if p.has_legal_move() {
+                out.push(p.flip());
+                out.push(p);
+            }
+        }
+        i += stride7;
+    }
     out
 }
 
@@ -284,6 +299,10 @@ pub fn run_c08(tier: Tier) -> i32 {
         let mut sess = Session::new(false);
         for d in 1..=3usize {
             if d == 3 && heavy && tier == Tier::Quick && i % 12 != 0 {
+                continue;
+            }
+            // the PAWN7 slice (five men, appended last): depths 1 and 2 in quick runs
+            if d == 3 && tier == Tier::Quick && p.piece_count() == 5 && i % 10 != 0 && (0..8).any(|f| p.board[8 + f] == pc(WHITE, PAWN) || p.board[48 + f] == pc(BLACK, PAWN)) {
                 continue;
             }
             let out = search_depth(&mut sess, p, &[], d, "");
